@@ -114,7 +114,9 @@ impl LuaDeclarationTree {
                 }
                 LuaScopeKind::Repeat => {
                     if let Some(ScopeOrDeclId::Scope(child_id)) = scope.get_children().first() {
-                        if let Some(child) = self.get_scope(child_id) {
+                        if let Some(child) = self.get_scope(child_id)
+                            && child.get_kind() == LuaScopeKind::LoopBody
+                        {
                             self.visit_visible_decls(child, position, true, f);
                             return;
                         }
@@ -145,7 +147,9 @@ impl LuaDeclarationTree {
             }
             if scope.get_kind() == LuaScopeKind::Repeat {
                 if let Some(ScopeOrDeclId::Scope(child_id)) = scope.get_children().first() {
-                    if let Some(body) = self.get_scope(child_id) {
+                    if let Some(body) = self.get_scope(child_id)
+                        && body.get_kind() == LuaScopeKind::LoopBody
+                    {
                         if self.search_scope_children(body, position, f) {
                             return;
                         }
@@ -170,12 +174,13 @@ impl LuaDeclarationTree {
         }
     }
 
-    /// The body of a `for` scope is its last child scope.
+    /// The body block of a `for` scope is its last child scope, of kind `LoopBody`. There is none
+    /// when the body is empty, or not yet while the header expressions are being analyzed.
     fn is_in_loop_body(&self, scope: &LuaScope, position: TextSize) -> bool {
         match scope.get_children().last() {
-            Some(ScopeOrDeclId::Scope(body_id)) => self
-                .get_scope(body_id)
-                .is_some_and(|body| body.get_range().contains(position)),
+            Some(ScopeOrDeclId::Scope(body_id)) => self.get_scope(body_id).is_some_and(|body| {
+                body.get_kind() == LuaScopeKind::LoopBody && body.get_range().contains(position)
+            }),
             _ => false,
         }
     }
